@@ -1,6 +1,8 @@
 package main
 
 import (
+	"6502profiler/commands"
+	"6502profiler/emuconfig"
 	"6502profiler/verifier"
 	"encoding/json"
 	"fmt"
@@ -10,6 +12,10 @@ import (
 	"strings"
 	"verifharness/internal/rng"
 )
+
+// defaultDriverSrc: what a freshly created driver contains (set per history: the direct repository uses a fixed
+// text, the command path the default source of the configured assembler)
+var defaultDriverSrc = "; default driver\n"
 
 func dirListing(dir string) string {
 	entries, _ := os.ReadDir(dir)
@@ -23,7 +29,7 @@ func dirListing(dir string) string {
 			kind = "O0"
 		case strings.Contains(string(data), "function arrange"):
 			kind = "O1"
-		case string(data) == "; default driver\n":
+		case string(data) == defaultDriverSrc:
 			kind = "O2"
 		}
 		if strings.HasSuffix(n, ".json") {
@@ -49,7 +55,27 @@ func caseRepoHistory(r *rng.R, n int) string {
 		panic(err)
 	}
 	defer os.RemoveAll(dir)
-	repo, _ := verifier.NewCaseRepo(dir, "; default driver\n")
+	defaultDriverSrc = "; default driver\n"
+	repo, _ := verifier.NewCaseRepo(dir, defaultDriverSrc)
+	// 40%: through the real newcase / delcase commands with a configuration file that names the directory
+	viaCmd := r.Chance(40)
+	cfgFile := ""
+	if viaCmd {
+		cfgDir, err := os.MkdirTemp("", "verif-repocfg")
+		if err != nil {
+			panic(err)
+		}
+		defer os.RemoveAll(cfgDir)
+		cfg := emuconfig.DefaultConfig()
+		cfg.AcmeTestDir = dir
+		cfg.AsmType = []string{"acme", "64tass", "ca65"}[r.Intn(3)]
+		cfgFile = filepath.Join(cfgDir, "config.json")
+		if err := cfg.Save(cfgFile); err != nil {
+			panic(err)
+		}
+		defaultDriverSrc = cfg.GetAssembler().GetDefaultSrc()
+		count("caserepo.viacommands")
+	}
 	names := []string{"a", "b", "c", "x"}
 	if r.Chance(35) {
 		// dotted and otherwise unusual case names
@@ -75,11 +101,19 @@ func caseRepoHistory(r *rng.R, n int) string {
 		case k < 4:
 			nm := names[r.Intn(len(names))]
 			if r.Chance(60) {
-				err = repo.Add(nm, verifier.NewTestCase("d", nm), true)
+				if viaCmd {
+					err = commands.NewCaseCommand([]string{"-c", cfgFile, "-p", nm, "-d", "d"})
+				} else {
+					err = repo.Add(nm, verifier.NewTestCase("d", nm), true)
+				}
 				ops = append(ops, "add:"+nm)
 			} else {
 				dr := drivers[r.Intn(len(drivers))]
-				err = repo.Add(nm, verifier.NewTestCaseWithDriver("d", nm, dr), false)
+				if viaCmd {
+					err = commands.NewCaseCommand([]string{"-c", cfgFile, "-p", nm, "-d", "d", "-t", dr})
+				} else {
+					err = repo.Add(nm, verifier.NewTestCaseWithDriver("d", nm, dr), false)
+				}
 				ops = append(ops, "addt:"+nm+":"+dr)
 			}
 			if err != nil {
@@ -90,7 +124,12 @@ func caseRepoHistory(r *rng.R, n int) string {
 			if r.Chance(30) {
 				nm += ".json"
 			}
-			if err = repo.Del(nm); err != nil {
+			if viaCmd {
+				err = commands.DelCommand([]string{"-c", cfgFile, "-t", nm})
+			} else {
+				err = repo.Del(nm)
+			}
+			if err != nil {
 				res = "err"
 			}
 			ops = append(ops, "del:"+nm)
